@@ -1251,7 +1251,7 @@ class Delay(Function):
 
 
 def extractTerm(obj, time):
-    return obj.term(time) if isinstance(obj, Operator) else obj
+    return obj.term(time) if isinstance(obj, (Operator, BPTK_Py.sddsl.element.Element)) else obj
 
 
 class Random(Function):
